@@ -156,13 +156,15 @@ def runs(ctx, deep=False):
             fcases.append(dict(c, faults=[k]))
         # real crashes: every call index; in the quick tier every shape for the first templates, one shape (rotating) for the other programs
         pi = [p[0] for p in progs].index(c['name'])
-        if full or pi == 0 or (pi in (1, 3, 6, 7, 9) and SHAPES[pi % 3] == c['shape']) or (pi == 7 and c['shape'] == 'opt'):
+        is_tpl = pi < len(TEMPLATES)
+        if (full and (is_tpl or SHAPES[pi % 3] == c['shape'])) or pi == 0 or (pi in (1, 3, 6, 7, 9) and SHAPES[pi % 3] == c['shape']) or (pi == 7 and c['shape'] == 'opt'):
             for k in range(n + 1):
-                # quick tier: a crash before a cursor() call leaves the same file as a crash before the statement that follows it
-                if not full and k < n and o['trace'][k][0] == 'cursor': continue
+                # a crash before a cursor() call leaves the same file as a crash before the statement that follows it: those indexes are
+                # run for the templates in the thorough tier only
+                if not (full and is_tpl) and k < n and o['trace'][k][0] == 'cursor': continue
                 ccases.append({'shape': c['shape'], 'ops': c['ops'], 'crash_at': k, 'name': c['name'], 'ncalls': n})
-    outs1 = cc.run_driver({'mode': 'sessions', 'cases': fcases}, timeout=1200)
-    couts = cc.run_driver({'mode': 'crash_batch', 'cases': ccases}, timeout=1200)
+    outs1 = cc.run_driver({'mode': 'sessions', 'cases': fcases})
+    couts = cc.run_driver({'mode': 'crash_batch', 'cases': ccases})
     pgc = cc.pg_random_cases(ctx.rng, ctx.scale(150, 1500))
     pgo = cc.run_driver({'mode': 'pg', 'cases': pgc})
     r = {'base': base, 'outs0': outs0, 'fcases': fcases, 'outs1': outs1, 'ccases': ccases, 'couts': couts, 'pgc': pgc, 'pgo': pgo}
